@@ -29,6 +29,7 @@ def run(rep, tier):
     lines, exps, metas = [], [], []
     grouper_stream(rep, r, 150 * scale, lines, exps, metas)
     phot_stream(rep, r, 60 * scale, lines, exps, metas)
+    local_background_probe(rep, r, 6 * scale)
     out = drv.run(lines)
     if out is None:
         rep.tie_broken('model driver failed', drv.error)
@@ -394,6 +395,35 @@ def phot_stream(rep, r, n, lines, exps, metas):
                 or list(a['npixfit']) != list(b['npixfit']) or list(a['flags']) != list(b['flags']):
             rep.violation(f'iterative1-ne-single:{variant}', f'IterativePSFPhotometry(maxiters=1) differs from PSFPhotometry ({variant}): '
                           f'flux {list(np.round(b["flux_fit"], 3))} vs {list(np.round(a["flux_fit"], 3))}, npixfit {list(b["npixfit"])} vs {list(a["npixfit"])}', rp)
+
+
+def local_background_probe(rep, r, n):
+    """(S) LocalBackground(r_in, r_out)(data, x, y): the sigma-clipped median of the pixels whose centres lie in the annulus around
+    (x, y) - x is the column coordinate - on non-square frames with a sky that differs between (x, y) and (y, x)"""
+    from astropy.stats import SigmaClip
+    from photutils.aperture import CircularAnnulus
+    from photutils.background import LocalBackground
+    for _ in range(n):
+        ny, nx = r.choice([(40, 70), (70, 40), (50, 55)])
+        rs = np.random.RandomState(r.randrange(2 ** 31))
+        yy, xx = np.mgrid[0:ny, 0:nx]
+        img = 10.0 + 0.3 * xx - 0.2 * yy + rs.normal(0, 0.5, (ny, nx)) + np.where(xx > nx / 2, 15.0, 0.0)
+        xs = [r.uniform(12, nx - 13) for _ in range(3)]
+        ys = [r.uniform(12, ny - 13) for _ in range(3)]
+        rin, rout = r.choice([(4.0, 8.0), (5.0, 9.5)])
+        mask = rs.rand(ny, nx) < 0.02 if r.random() < 0.5 else None
+        with warnings.catch_warnings():
+            warnings.simplefilter('ignore')
+            got = np.atleast_1d(LocalBackground(rin, rout)(img, xs, ys, mask=mask))
+            exp = []
+            for x_, y_ in zip(xs, ys):
+                v = CircularAnnulus((x_, y_), rin, rout).to_mask(method='center').get_values(img, mask=mask)
+                exp.append(float(np.median(SigmaClip(sigma=3.0, maxiters=10)(v, masked=False))))
+        rep.case(('localbkg', img.tobytes(), tuple(xs)), True, kind='LocalBackground')
+        rep.probe_only += 1
+        if not np.allclose(got, exp, rtol=1e-10, atol=1e-10):
+            rep.violation('local-background-ne-annulus-median', f'LocalBackground({rin}, {rout}) at x = {xs}, y = {ys} on a {ny} x {nx} frame gives {got.tolist()}, '
+                          f'the clipped median of the annulus pixels is {exp}', {'shape': [ny, nx], 'x': xs, 'y': ys, 'r_in': rin, 'r_out': rout})
 
 
 def replay(rep, data):
